@@ -59,3 +59,17 @@ Theorem C09_snapshot_sent_is_the_logs : forall st r to pr r',
                                       end.
 Proof. exact ProposalProofs.snapshot_sent_is_the_logs. Qed.
 Print Assumptions C09_snapshot_sent_is_the_logs.
+
+(* the answer to a MsgSnap vouches for the whole log only if the snapshot was installed; a snapshot
+   that was ignored or that only fast-forwarded the commit index is answered with the commit index,
+   because the tail beyond it was not compared with the sender's log *)
+Theorem C09_snapshot_answer : forall st r m r',
+  handle_snapshot st r m = Ok r' ->
+  exists r1 ok a,
+    restore st r (match m_snapshot m with Some s => s | None => empty_snapshot end) = Ok (r1, ok) /\
+    r_msgs_after_append r' = r_msgs_after_append r1 ++ [a] /\ r_msgs r' = r_msgs r1 /\
+    m_type a = MsgAppResp /\ m_to a = m_from m /\ m_from a = r_id r1 /\ m_term a = r_term r1 /\
+    m_reject a = false /\
+    m_index a = (if ok then last_index st r1 else l_committed (r_log r1)).
+Proof. exact LocalProofs.snapshot_answer. Qed.
+Print Assumptions C09_snapshot_answer.
